@@ -474,7 +474,6 @@ def spaces(tier, variant, seed):
     sp.append(Space("lifecycle_sequences", list(range(len(LOPS))), lc_cases, lc_one,
                     "every sequence of %d lifecycle operations (init, init2, init_set*, inits/clears, mpq/mpf init and parse incl. rejected strings, set_prec, randstate init/copy/seed, allocated strings, a big computation) then clear: allocator contract and zero blocks held" % (2 if quick else 3)))
 
-    # ---------------- stream inputs that end early / mpf_urandomb: objects must stay well formed ----------------
     f_inp_raw = lib.fn("mpz_inp_raw", c_size_t, P, c_void_p)
     f_inp_str = lib.fn("mpz_inp_str", c_size_t, P, c_void_p, c_int)
     f_qinp = lib.fn("mpq_inp_str", c_size_t, P, c_void_p, c_int)
@@ -487,6 +486,100 @@ def spaces(tier, variant, seed):
         if "vs" not in st_pool:
             st_pool["vs"] = S.v_stream_new()
         return st_pool["vs"]
+
+    # ---------------- parsers fed strings with one defect at every position: no leak, destination well formed ----------------
+    g_sscanf = lib.sym("gmp_sscanf")
+    g_sscanf.restype = c_int
+    TEMPLATES = ["-123456789012345678901234567890", "12/7", "-1234567890123456789012345/98765432109876543210987", "0x1f/0x10", "1.5e3", "-0.25@-2", "  42", "7/ 3", "ff/10"]
+    BADCH = ["y", "/", " ", "-", ".", "@", "", "+", "\x01", "9"]
+
+    def pr_cases(blk):
+        ti = blk
+        t = TEMPLATES[ti]
+        for pos in range(len(t) + 1):
+            for bi in range(len(BADCH)):
+                for mode in (0, 1):              # 0 = insert, 1 = replace
+                    if mode == 1 and pos == len(t):
+                        continue
+                    yield (ti, pos, bi, mode)
+        yield (ti, -1, 0, 0)
+
+    def pr_one(case, R):
+        ti, pos, bi, mode = case
+        t = TEMPLATES[ti]
+        if pos < 0:
+            s_ = t
+        else:
+            s_ = t[:pos] + BADCH[bi] + (t[pos + 1:] if mode else t[pos:])
+        bs = s_.encode("latin1")
+        if b"\0" in bs:
+            return None
+        e = env()
+        vs = stream()
+        base = 0 if "0x" in t else (16 if t.startswith("ff") else 10)
+        outcomes = []
+        for fn_name in ("mpz_set_str", "mpz_init_set_str", "mpq_set_str", "mpf_set_str", "mpf_init_set_str", "sscanf_Z", "sscanf_Q", "sscanf_F", "mpz_inp_str", "mpq_inp_str", "mpf_inp_str"):
+            before = lib.live_blocks()
+            z = lib.Z(5)
+            q = lib.Q(Fraction(5, 3))
+            f = lib.F(128)
+            f.set_frac(Fraction(5, 4))
+            if fn_name == "mpz_set_str":
+                r = f_set_str(z.p, bs, base)
+            elif fn_name == "mpz_init_set_str":
+                raw = lib.MPZ()
+                r = f_iset_str(addressof(raw), bs, base)
+                m = lib._zwf_at(addressof(raw))
+                if m:
+                    R.fail(fn_name, "%r: object ill-formed: %s" % (s_, m))
+                f_clear(addressof(raw))
+            elif fn_name == "mpq_set_str":
+                r = f_qset_str(q.p, bs, base)
+            elif fn_name == "mpf_set_str":
+                r = f_fset_str(f.p, bs, base or 10)
+            elif fn_name == "mpf_init_set_str":
+                raw = lib.MPF()
+                r = f_fiset_str(addressof(raw), bs, base or 10)
+                f_fclear(addressof(raw))
+            elif fn_name.startswith("sscanf"):
+                conv = {"Z": b"%Zi", "Q": b"%Qi", "F": b"%Ff"}[fn_name[-1]]
+                tgt = {"Z": z.p, "Q": q.p, "F": f.p}[fn_name[-1]]
+                r = g_sscanf(bs, conv, c_void_p(tgt))
+            else:
+                fp = S.v_open_read(vs, bs, len(bs), -1, 0, 0, 0)
+                if fn_name == "mpz_inp_str":
+                    r = f_inp_str(z.p, fp, base)
+                elif fn_name == "mpq_inp_str":
+                    r = f_qinp(q.p, fp, base)
+                else:
+                    r = f_finp(f.p, fp, base or 10)
+                S.v_fclose(fp)
+            for o, nm in ((z, "mpz"), (f, "mpf")):
+                m = o.wf()
+                if m:
+                    R.fail(fn_name, "%r: %s destination ill-formed afterwards: %s" % (s_, nm, m))
+            m = q.wf(canonical=False)
+            if m:
+                R.fail(fn_name, "%r: mpq destination ill-formed afterwards: %s" % (s_, m))
+            z.clear(); z.s.d = None
+            q.clear(); q.s.num.d = None
+            f.clear(); f.s.d = None
+            if lib.alloc_errors():
+                R.fail(fn_name, "%r: allocator contract: %s" % (s_, lib.alloc_msg()))
+                S.v_reset_errors()
+            if lib.live_blocks() != before:
+                R.fail(fn_name, "%r (returned %d): %d block(s) still held after the objects were cleared" % (s_, r, lib.live_blocks() - before))
+            if S.v_check_guards():
+                R.fail(fn_name, "%r: guard bytes damaged" % s_)
+                S.v_reset_errors()
+            outcomes.append(r if r in (0, -1) else 1)
+        R.count("states", 11)
+        return (ti, mode, bi, tuple(outcomes))
+
+    sp.append(Space("parsers_with_one_defect", list(range(len(TEMPLATES))), pr_cases, pr_one,
+                    "mpz/mpq/mpf set_str, init_set_str, inp_str and gmp_sscanf on %d templates with one of %d characters inserted or substituted at EVERY position (bad numerator, bad denominator, empty parts, stray signs/points/exponent marks): no block lost, allocator contract, destinations well formed" % (len(TEMPLATES), len(BADCH))))
+
+    # ---------------- stream inputs that end early / mpf_urandomb: objects must stay well formed ----------------
 
     RAWV = [0, 1, -1, 255, -65536, (1 << 64) - 1, -(1 << 64), al.PAT(3)["dense"], -(1 << 200) - 1]
 
